@@ -20,7 +20,7 @@ LEVEL_TEXT["C07"] = (
 )
 
 PROPS["C07"] = {
-    "gen": ["Cmplx", "Slice", "StepsBase", "StepsArray", "StepsSlice", "StepsFir", "CtorFir"],
+    "gen": ["Cmplx", "Slice", "StepsBase", "StepsArray", "StepsSlice", "StepsFir", "CtorFir", "StepsFftFilter"],
     "lean_props": ["DspVerif.Props.C07", "DspVerif.Props.C07Total", "DspVerif.Props.C07Gen"],
     "harness": [{"src": "c07.cpp", "cfg": "rel",
                  # fft*/xc*: the model runs the C01 model of the library's plans in the library's operation order -> worst observed
